@@ -41,7 +41,7 @@ impl HttpRangeRequest {
         offset: u64,
         size: u64,
     ) -> Result<Bytes, HttpReaderError> {
-        let end_offset = offset + size - 1;
+        let end_offset = offset.saturating_add(size).saturating_sub(1);
         let request = request.header(
             reqwest::header::RANGE,
             format!("bytes={}-{}", offset, end_offset),
@@ -79,7 +79,7 @@ impl HttpRangeRequest {
         loop {
             match &mut self.state {
                 RequestState::Init => {
-                    let end_offset = self.offset + self.size - 1;
+                    let end_offset = self.offset.saturating_add(self.size).saturating_sub(1);
                     let request = match self.request.try_clone() {
                         Some(request) => request,
                         None => return Poll::Ready(Some(Err(HttpReaderError::RequestNotClonable))),
@@ -100,8 +100,9 @@ impl HttpRangeRequest {
                 },
                 RequestState::Stream(stream) => match ready!(stream.poll_next_unpin(cx)) {
                     Some(Ok(item)) => {
-                        self.offset += item.len() as u64;
-                        self.size -= item.len() as u64;
+                        // The server may send more than what was asked for.
+                        self.offset = self.offset.saturating_add(item.len() as u64);
+                        self.size = self.size.saturating_sub(item.len() as u64);
                         return Poll::Ready(Some(Ok(item)));
                     }
                     Some(Err(err)) => return Poll::Ready(Some(Err(HttpReaderError::from(err)))),
